@@ -69,6 +69,11 @@ def set_source(r):
         for s_ in pat.split(" "):
             use += FILL.get(s_, [s_])
         uses.append(" ".join(use))
+    if r.random() < 0.35:
+        # the same definition (priority, pattern, body: token for token) a second or third time further down
+        for _ in range(r.randint(1, 2)):
+            d = r.choice(lines)
+            lines.insert(r.randint(lines.index(d) + 1, len(lines)), d if r.random() < 0.5 else d.replace("\n", " "))
     r.shuffle(uses)
     return "\n".join(lines) + "\n" + " | ".join(uses)
 
